@@ -57,7 +57,7 @@ def run(ctx: Ctx):
     op_node = cfg.node_containing(op)
     okm = any(norm(a) == out_param for a in op.args) and any(isinstance(a, ast.Constant) and a.value == "w" for a in op.args) \
         or any(k.arg == "mode" and isinstance(k.value, ast.Constant) and k.value.value == "w" for k in op.keywords)
-    ctx.ob("R5.1", f, op, bool(okm), "the output is opened for writing at the requested path", node=op)
+    ctx.attempt("R5.1", lambda: ctx.ob("R5.1", f, op, bool(okm), "the output is opened for writing at the requested path", node=op))
     raises = [n for n in walk_no_nested(f.node) if isinstance(n, ast.Raise) and "SystemError" in norm(n)]
     n_r = 0
     for r in raises:
@@ -99,13 +99,15 @@ def run(ctx: Ctx):
                         and norm(e_.left) == "%s.exchange_map" % norm(g_.generators[0].target):
                     t_maps = cfg.node_of(n).id in dom[op_node.id]
                     chk_loops = [n]
-    ctx.ob("R5.1", f, "pre-flight: `not %s` and `exchange_map is None` for every complete species" % cc, t_empty and t_maps,
+    ctx.attempt("R5.1", lambda: ctx.ob("R5.1", f, "pre-flight: `not %s` and `exchange_map is None` for every complete species" % cc, t_empty and t_maps,
            "extrapolating with nothing to map, or before every species' exchange map exists, raises before any file is created",
-           node=chk_loops[0] if chk_loops else f.node)
-    from ..util import persistent_state
-    persistent_state(ctx, "R5.8", [f_ for f_ in (ctx.repo.func(q_, required=False) for q_ in ('Manager.extrapolate_system', 'Manager.complete_correspondence@get', 'Manager.calculate_exchange_maps')) if f_ is not None], "extrapolating a system")
+           node=chk_loops[0] if chk_loops else f.node))
 
-    _r5_7(ctx)
+
+    from ..util import persistent_state
+    ctx.attempt("R5.8", lambda: persistent_state(ctx, "R5.8", [f_ for f_ in (ctx.repo.func(q_, required=False) for q_ in ('Manager.extrapolate_system', 'Manager.complete_correspondence@get', 'Manager.calculate_exchange_maps')) if f_ is not None], "extrapolating a system"))
+
+    ctx.attempt("_r5_7", lambda: _r5_7(ctx))
     res_ = _r5_2_to_4(ctx, f, cfg, dom, pm, op, cc)
     # ------------------------------------------------------------------ R5.5
     withs = [n for n in walk_no_nested(f.node) if isinstance(n, ast.With) and any(op is x for i in n.items for x in ast.walk(i.context_expr))]
@@ -128,10 +130,11 @@ def run(ctx: Ctx):
                "the output's %s is taken from the input system before the first line is written" % ("title" if attr == "comment" else "box"),
                node=st[0] if st else scope)
     # the handle is closed by the with-statement (count back-fill and box line are written on close)
-    ctx.ob("R5.5", f, "with-statement around the writer", bool(withs),
-           "the writer is closed on leaving the block, which writes the atom count and the box line", node=scope)
+    ctx.attempt("R5.5", lambda: ctx.ob("R5.5", f, "with-statement around the writer", bool(withs),
+           "the writer is closed on leaving the block, which writes the atom count and the box line", node=scope))
+
     # ------------------------------------------------------------------ R5.6
-    exmap.r2_3(ctx, rule="R5.6")
+    ctx.attempt("R5.6", lambda: exmap.r2_3(ctx, rule="R5.6"))
     # residue numbers of each written molecule are those of its input molecule (C04/R4.5)
     em = exmap.EM(ctx)
     fcall = em.call
@@ -143,18 +146,20 @@ def run(ctx: Ctx):
     frets = [n_ for n_ in walk_no_nested(fcall.node) if isinstance(n_, ast.Return)]
     okr = bool(rs) and bool(frets) and norm(rs[0].value) == "%s.resids" % argp and all(
         cfgc.node_of(rs[0]).id in domc[cfgc.node_of(r_).id] and norm(r_.value) == norm(rs[0].targets[0].value) for r_ in frets)
-    ctx.ob("R5.6", fcall, rs[0] if rs else "residue numbers", okr,
+    ctx.attempt("R5.6", lambda: ctx.ob("R5.6", fcall, rs[0] if rs else "residue numbers", okr,
            "every mapped molecule carries exactly the residue numbers of its input molecule (copied, not renumbered)",
-           node=rs[0] if rs else fcall.node)
+           node=rs[0] if rs else fcall.node))
+
+
     # the box line is written completely (C13/R13.4)
     from . import c13
-    c13.r13_4(ctx, rule="R5.5")
+    ctx.attempt("R5.5", lambda: c13.r13_4(ctx, rule="R5.5"))
     # the title travels unchanged through the writer's setter and header (C13/R13.6)
-    c13.r13_6(ctx, rule="R5.5")
+    ctx.attempt("R5.5", lambda: c13.r13_6(ctx, rule="R5.5"))
     # the molecules iterated are the file's instances, all of them, in file order (C11/R11.1, R11.3)
     from . import c11
-    c11.r11_1_2(ctx)
-    c11.r11_3(ctx)
+    ctx.attempt("R11.1", lambda: c11.r11_1_2(ctx))
+    ctx.attempt("R11.3", lambda: c11.r11_3(ctx))
 
 
 
